@@ -37,6 +37,8 @@ pub fn plan(prop: &str, tier: Tier) -> Option<(&'static str, Vec<Job>)> {
             Job::new("catalogue", if q { 600 } else { 6_000 }).caches(&["off", "big"]),
             Job::new("frames", if q { 1000 } else { 15_000 }).shrink(60),
             Job::new("partlog", if q { 800 } else { 16_000 }).flavour("http").caches(&["off", "big"]),
+            // membership-heavy histories: responses with several group members (added after seed C13-C)
+            Job::new("catalogue", if q { 400 } else { 8_000 }).flavour("groups").caches(&["off"]),
         ],
         "C14" => vec![Job::new("partlog", if q { 1400 } else { 30_000 }).caches(all3)],
         "C15" => vec![Job::new("partlog", if q { 1400 } else { 30_000 }).caches(all3)],
